@@ -226,6 +226,37 @@ Proof.
   - constructor; [reflexivity|reflexivity|exact IH].
 Qed.
 
+(** ** Both levels decide on the same path with the same function: a filter put on every rule selects exactly
+    the files the same filter selects at the top level *)
+Lemma levels_agree_reject : forall (rs : list rule) flt f b,
+  should_apply flt f = false -> run_rules (map (with_filter flt) rs) f b = Some b.
+Proof.
+  induction rs as [|r rs IH]; intros flt f b H; cbn [map Filters.run_rules with_filter r_filter]; [reflexivity|].
+  rewrite H. apply IH. exact H.
+Qed.
+
+Lemma levels_agree_select : forall (rs : list rule) flt f b,
+  should_apply flt f = true -> run_rules (map (with_filter flt) rs) f b = run_rules (map unfiltered rs) f b.
+Proof.
+  induction rs as [|r rs IH]; intros flt f b H; cbn [map Filters.run_rules with_filter unfiltered r_filter r_process]; [reflexivity|].
+  rewrite H, should_apply_no_filter. destruct (r_process r f b); [apply IH; exact H|reflexivity].
+Qed.
+
+Lemma levels_agree : forall (rs : list rule) flt f src b0 b1,
+  parse src = Some b0 -> bundle f b0 = Some b1 ->
+  (process_file (Config flt (map unfiltered rs)) f src = Skipped <->
+   run_rules (map (with_filter flt) rs) f b1 = Some b1 /\ should_apply flt f = false) /\
+  (should_apply flt f = true ->
+   process_file (Config flt (map unfiltered rs)) f src = process_file (Config no_filter (map (with_filter flt) rs)) f src).
+Proof.
+  intros rs flt f src b0 b1 Hp Hb. unfold Filters.process_file. rewrite Hp, Hb. cbn [c_filter c_rules].
+  rewrite should_apply_no_filter. cbn [negb]. split.
+  - destruct (should_apply flt f) eqn:E; cbn [negb].
+    + split; [|intros [_ H]; discriminate]. destruct (run_rules (map unfiltered rs) f b1); discriminate.
+    + split; [intros _; split; [apply levels_agree_reject; exact E|reflexivity]|reflexivity].
+  - intros E. rewrite E. cbn [negb]. rewrite (levels_agree_select rs flt f b1 E). reflexivity.
+Qed.
+
 End FiltersFacts.
 
 Arguments set_filter {pattern path block}.
